@@ -4,17 +4,36 @@ import json, os, sys
 HERE = os.path.dirname(os.path.dirname(os.path.abspath(__file__)))
 
 NA = {
- "C01": "digest equality with the standard for all segmentations/interleavings/families is a numerical result; no structural fact implies it (structural parts are claimed under C06/C11/C15/C19/C20)",
- "C02": "GCM ciphertext/tag values for all lengths, AAD and tag sizes are numerical results of AES/GHASH arithmetic in four macro families; no static argument in reach decides them",
- "C03": "IEEE-1619 ciphertext values incl. stealing and raw/expanded agreement are numerical; the len<16 clause needs per-path value ranges of the length register",
- "C04": "FIPS-197 schedule values and SP 800-38A chaining values are numerical results",
- "C05": "multi-hash digest independence from segmentation is a value property of modular carry arithmetic",
- "C07": "streaming == one-shot is a relational numerical property over all segmentations",
- "C10": "murmur3/mh values for all seeds and segmentations are numerical results",
+ "C07": "streaming == one-shot is a relational numerical property over all segmentations of the data (carry of a partial block between update calls in four macro families); no clause of it is visible in the shape of the code beyond what C02 R02.1/R02.2 and C08 R08.7 already decide for the update and finalize bodies, and a rule demanding that the one-shot and streaming bodies be built from the same macros would fire on behaviour-preserving edits",
 }
 PENDING = "static check designed in DESIGN.md section 3 but not built yet; not claimed until it exists"
 
 CHECKS = {
+ "C01": dict(level="other", technique="pointer-provenance abstract interpretation of the kernels' object code against the table of alignment-demanding encodings; constants derived from the standards' definitions searched in data sections and instruction operands of every unit; IR path rule for message restart",
+   text="PARTIAL - clauses only; digest values are NOT decided. Decided: (R01.1) 'any pointer alignment': in the 25 kernels the managers call, no alignment-demanding instruction (legacy-SSE 16-byte memory operand, (v)movdqa/(v)movaps/(v)movnt*) addresses memory through a data pointer fetched from the lane table; (R01.2) 'a reused context depends on the new message only': under FIRST all 28 _ctx_mgr_submit functions reset total_length, partial_block_buffer_length and the digest before reading them; (R01.3) each of the 28 context-layer units carries its algorithm's complete standard initial hash value; (R01.4) each of the 28 units implementing a round function carries the complete standard round-constant set (tables also in standard order). The constants are computed from their definitions (roots of primes, sines, rotations), so a constant corrupted in a CPU family the test host never dispatches to is reported.",
+   note="Necessary conditions only. Presence of a constant is per unit; that round i uses entry i is not decided for immediates. Trusted: LLVM MC decoding; lib/stdconst.py (self-checked against published values).",
+   ref="Part III/C01"),
+ "C02": dict(level="other", technique="pointer-provenance abstract interpretation of object code + alignment-demanding encodings table; value-set (k-set) abstract interpretation of the tag-length argument with infeasible-edge pruning",
+   text="PARTIAL - clauses only; ciphertext and tag values are NOT decided. Decided for the 96 GCM bodies of the four families: (R02.1) 'any buffer alignment': no alignment-demanding instruction addresses memory through in, out or aad (aad only in the _nt bodies, whose in/out carry the documented 64-byte rule); (R02.2) 'the 8-, 12- or 16-byte tag': in the 48 bodies taking (auth_tag, auth_tag_len), under auth_tag_len = 8, 12, 16 the reachable stores through auth_tag are unmasked, at constant offsets and cover exactly [0, len) - 144 cases, register- and stack-passed lengths alike.",
+   note="Necessary conditions. Trusted: MC decoding; argument order from aes/aes_gcm.c. The value-set domain holds at most 64 concrete values per register and models no memory except the read of a stack-passed argument.",
+   ref="Part III/C02"),
+ "C03": dict(level="other", technique="value-set (k-set) abstract interpretation of the length register over object code with infeasible-edge pruning, pointer-provenance abstract interpretation, alignment-demanding encodings table; positive control per body",
+   text="PARTIAL - clauses only; IEEE 1619 ciphertext values, stealing arithmetic and raw/expanded-key agreement are NOT decided. Decided for all 24 XTS bodies (sse/avx/vaes x enc/dec x raw/expanded): (R03.1) 'for lengths below 16 neither buffer is touched': with len in [0,15] only the tweak-encryption prologue and the epilogue remain reachable and no remaining instruction addresses memory through in or out (the legacy XTS_AES_* entry points forward without a check of their own); (R03.2) 'any alignment of data, keys and tweak': no alignment-demanding instruction addresses memory through any of the five pointer arguments. Control: with len in [16,31] the same analysis does reach accesses through both buffers in every body.",
+   note="Necessary conditions. Trusted: MC decoding; the length is the interface's only non-pointer argument.",
+   ref="Part III/C03"),
+ "C04": dict(level="other", technique="straight-line value numbering over object code (terms over uninterpreted instructions, copy propagation, store-to-load forwarding) for the key schedules; aeskeygenassist immediates in dependence order; pointer provenance + alignment table for CBC",
+   text="PARTIAL - clauses only; round-key and ciphertext values are NOT decided. Decided: (R04.1) 'the matching decryption schedule (reversed, inverse mix columns on the inner rounds)': in the 6 full key-expansion bodies, slot Nr-i of the decryption schedule holds exactly the term stored as encryption round key i for i in {0,Nr} and aesimc of exactly that term otherwise, and every slot of both schedules is written (202 obligations); (R04.2) the round constants fed to the RotWord/Rcon use of aeskeygenassist are 01 02 04 08 10 20 40 80 1b 36 (truncated per key size) in all 8 bodies, SubWord-only uses exempt; (R04.3) 'any data alignment': no alignment-demanding instruction addresses memory through in/out in the 15 CBC bodies. The zero-length CBC call is decided under C08 R08.7.",
+   note="Necessary conditions; equality of terms is syntactic after copy propagation, so unequal-looking but equal values would be reported (none today). Trusted: MC decoding; argument order from aes_keyexp.c / aes_cbc.c.",
+   ref="Part III/C04"),
+ "C05": dict(level="other", technique="pointer provenance + alignment table over the block functions' object code; IR path enumeration with a linear-form normaliser for the stream-length update; standard constants searched per unit",
+   text="PARTIAL - clauses only; the digest is NOT decided. Decided: (R05.1) 'independent of buffer alignment': in the 8 assembly block functions no alignment-demanding instruction addresses memory through input_data; (R05.2) bookkeeping half of 'independent of how the stream was cut': on every effectful path of the 10 update functions total_length is stored exactly once with a value that normalises to total_length + len; (R05.3) the 12 units implementing the SHA-1 / SHA-256 rounds carry the complete standard round constants and the init / final-hash units the standard initial values.",
+   note="Necessary conditions. Trusted: MC decoding, clang -O0+mem2reg IR, lib/stdconst.py.",
+   ref="Part III/C05"),
+ "C10": dict(level="other", technique="pointer provenance + alignment table over the stitched block functions; IR path rules (linear-form stream-length update, seed initialisation); MurmurHash3 and SHA-1 constants searched per unit",
+   text="PARTIAL - clauses only; neither digest value is decided. Decided: (R10.1) no alignment-demanding access through input_data in the 4 stitched block functions; (R10.2) total_length = total_length + len exactly once on every effectful path of the 5 update functions; (R10.3) 'both state words initialised to the seed': every context-initialising path of _init writes all 16 bytes of murmur3_x64_128_digest from the seed parameter after the clearing memset; (R10.4) the 5 block implementations carry c1, c2, 0x52dce729, 0x38495ab5, the finalisation unit the two fmix64 multipliers, the stitched SHA-1 halves the SHA-1 round constants.",
+   note="Necessary conditions. Trusted: MC decoding, clang IR, lib/stdconst.py.",
+   ref="Part III/C10"),
+
  "C20": dict(level="other", technique="byte-granular definedness dataflow over object code (GPRs, 512-bit vector registers with opmask tags, flags, own-frame stack slots) with context-sensitive analysis of private kernels, known-bits / interval branch pruning; IR rules for message restart and init coverage",
    text="PARTIAL. Decided for 775 functions / ~535k instructions of the real build: starting from 'only the interface's argument registers, rsp and callee-saved registers are defined', no undefined register, flag, opmask or unwritten own-frame stack byte reaches any of ~168k sinks (address computations, stores to non-stack memory, flag consumers, call arguments); byte-exact transfer for moves, shuffles, inserts, aligns, broadcasts and masked loads/stores, lane-wise for arithmetic, all-or-nothing otherwise; 24 private-convention kernels are analysed in the context of each call site. IR: under FIRST every _ctx_mgr_submit resets total_length / partial_block_buffer_length / digest before reading them; mh_* init functions zero the whole context first. 52 reports on two families of paths confirmed infeasible by reading (GCM 8-block loop entry, CBC last-block test) are listed one by one in tables/c20_infeasible.json. NOT decided: dependence on lane-indexed manager memory of idle lanes and on output-buffer prefill.",
    note="Path-insensitive across joins (hence the table); memory reached through arguments is treated as API-defined. Trusted: MC operand tables; arity of assembly interfaces = argument count at their C call sites.",
@@ -23,8 +42,8 @@ CHECKS = {
    text="PARTIAL. Decided: (R06.1) every non-NULL context returned by each of the 23 <algo>_ctx_mgr_resubmit functions had a status without the PROCESSING bit stored into it as the last action, with no manager call in between; (R06.2) COMPLETE is stored only under (status & COMPLETE), PROCESSING|COMPLETE only under (status & LAST) and followed by the submit of the padding job; (R06.3) each SIMD _ctx_mgr_flush returns NULL only on the edge 'manager flush returned NULL' and otherwise resubmit's checked non-NULL result, and each of the 23 assembly flush managers reaches its NULL return only through branches on the manager's occupancy fields, storing nothing to the manager on the way; (R06.4) nothing in the library stores to user_data and every store in the manager assembly goes to its stack, its arguments or a job pointer from the lane table, never through a data pointer. NOT decided: exactly-once hand-back and lane-count bounds (lane-stack encodings and data-dependent lane indices in assembly).",
    note="Structural necessary conditions of the job life-cycle at the ctx layer. Every store of the manager assembly has a known provenance (the *_opt_x1 kernels are summarised per call-site context).",
    ref="3/C06"),
- "C08": dict(level="other", technique="pointer-provenance abstract interpretation of object code against argument roles derived from the wrappers' prototypes; constant opmask tracking for masked loads; IR edge-dominance for the rolling-hash window",
-   text="PARTIAL. Decided for all 143 AES CPU-specific entry points: no store's address derives solely from an argument whose pointee is const in the wrapper's prototype (keys, schedules, IV, tweak, AAD, input) - 'inputs are never modified'; every load at a constant offset from a fixed-extent input stays within its extent (GCM IV 12 bytes incl. masked 16-byte loads whose constant opmask selects 12, XTS tweak 16, raw keys 16/24/32, key schedules 16*(Nr+1), GCM key data = sizeof the struct) and such inputs are never register-indexed; in _rolling_hash2_run the look-back addresses buffer-w are formed only after the window has been filled. NOT decided: bounds of variable-length buffers (all len mod 16/64 tails), reads of the GHASH key-power table at a computed index, the hash/multi-hash kernels' data reads.",
+ "C08": dict(level="other", technique="pointer-provenance abstract interpretation of object code against argument roles derived from the wrappers' prototypes; constant opmask tracking for masked loads; value-set interpretation of the length argument for the zero-length call; IR edge-dominance / path rules for the rolling-hash window and the copy helper",
+   text="PARTIAL. Decided for all 143 AES CPU-specific entry points: no store's address derives solely from an argument whose pointee is const in the wrapper's prototype (keys, schedules, IV, tweak, AAD, input) - 'inputs are never modified'; every load at a constant offset from a fixed-extent input stays within its extent (GCM IV 12 bytes incl. masked 16-byte loads whose constant opmask selects 12, XTS tweak 16, raw keys 16/24/32, key schedules 16*(Nr+1), GCM key data = sizeof the struct) and such inputs are never register-indexed; in _rolling_hash2_run the look-back addresses buffer-w are formed only after the window has been filled; fixed-offset stores through auth_tag fit the tag length known on their path (R08.4); the rolling-hash scan loops compare the position with the end before every stream-byte load (R08.5); the ctx layer's variable-length copy helper never reads beyond src+n (R08.6); under len = 0 (value-set interpretation of the length argument) none of the 103 CBC / GCM / XTS bodies with (in, out, len) keeps an access through in or out reachable - 'exactly len output bytes' at the zero-length boundary (R08.7; this rule found the CBC zero-length defect, now fixed). NOT decided: bounds of variable-length buffers for len > 0 (all len mod 16/64 tails), reads of the GHASH key-power table at a computed index, the hash/multi-hash kernels' data reads.",
    note="A necessary condition (no write through inputs, no over-read of fixed-size operands), not the full range property. Trusted: const-ness in the wrappers' prototypes; MC operand tables.",
    ref="3/C08"),
  "C09": dict(level="other", technique="IR global-initialiser comparison against a pinned table, whole-library writer scan, must-pass-through on the run function's CFG, load-provenance in the scan loops' object code",
